@@ -16,7 +16,7 @@ RULE = ("to_condensed/to_squared: every (n,i,j) for n <= 12 (quick) / 40 (thorou
         "the truncation; pdist/cdist 1-D metrics on integer-valued inputs (float and int dtype) of length 0..7 with repeated values; "
         "propagate_constraints on every (cannot-link, must-link) graph with <=2+<=2 edges on 4 vertices (quick) and "
         "<=3+<=3 (thorough) plus random graphs on 6 vertices; l2_normalize tolerance check on random matrices "
-        "with zero rows; non-trivial = n >= 4 / length >= 3 / both constraint lists non-empty")
+        "with zero rows, sparse rows and rows of magnitude 1e-100 .. 1e100; non-trivial = n >= 4 / length >= 3 / both constraint lists non-empty")
 TRUSTED = ["the float side of to_squared (np.sqrt, /2) is tied, not proved: the model is exact integer arithmetic"]
 
 
